@@ -126,6 +126,19 @@ func init() {
 					d.subbed.AutoDD = true
 					d.subbed.AnswerHeldDiscovery()
 					d.subbed.AwaitDiscovery()
+				} else if w.T.Bool(1, 3, "discovery-reply-repeated") {
+					// the subscriber's discovery reply arrives once more (a retry): the node applies it
+					// again and rebuilds its view of the subscriber's features
+					d.subbed.AnswerHeldDiscovery()
+					simrt.WaitUntil("conn-idle", func() bool { return len(d.subbed.Conn.Queue) == 0 && !d.subbed.Conn.Handling })
+					w.Probe("c07-discovery-reply-repeated")
+				}
+				if w.T.Bool(1, 2, "subscribes-again") {
+					// the subscriber repeats its request (it may not have seen the result): whether
+					// that is refused as a duplicate or accepted, it is subscribed once
+					s := d.subbed
+					s.Await(s.SendSubscribe(s.NM(), s.LocalNM(), nmT, false, "sub-nm-again"))
+					w.Probe("c07-subscription-repeated")
 				}
 				ready = true
 			})
